@@ -157,9 +157,9 @@ func (k Keeper) WithdrawEarnedFees(ctx sdk.Context, owner, provider sdk.AccAddre
 
 		k.DeleteEarnedFees(ctx, provider)
 
-		if earnedFees.IsEqual(ownerEarnedFees) {
-			k.DeleteOwnerEarnedFees(ctx, owner)
-		} else {
+		// rewrite the owner's records: a denom whose total drops to zero must not keep its old record
+		k.DeleteOwnerEarnedFees(ctx, owner)
+		if !earnedFees.IsEqual(ownerEarnedFees) {
 			k.SetOwnerEarnedFees(ctx, owner, ownerEarnedFees.Sub(earnedFees))
 		}
 
